@@ -236,10 +236,12 @@ def run(tier, seed):
     run.extra_cov["named_quantities"] = len(reg.quantities)
     bases = sorted(reg.base_units)
     extra = set()
-    nrand = 150 if tier == "quick" else 100000
-    while len(extra) < nrand:
+    nrand = 150 if tier == "quick" else 30000
+    attempts = 0
+    while len(extra) < nrand and attempts < nrand * 20:     # the space of such products is finite: never spin on it
+        attempts += 1
         d = {}
-        for b in rng.sample(bases, rng.randrange(1, 4)):
+        for b in rng.sample(bases, rng.randrange(1, 4 if tier == "quick" else 6)):
             d[b] = rng.choice([-3, -2, -1, 1, 2, 3])
         extra.add(dims_key(d))
     jobs = sorted(dks) + sorted(extra - dks)
